@@ -41,7 +41,7 @@ def main():
     meta = json.load(open(os.path.join(d, "meta.json")))
     prop = meta["property"]
     checks = checks or [prop]
-    wt = ("/tmp/wt3-" if "/seed3-out/" in d else "/tmp/wt2-" if "/seed2-out/" in d else "/tmp/wt-") + prop
+    wt = ("/tmp/wt4-" if "/seed4-out/" in d else "/tmp/wt3-" if "/seed3-out/" in d else "/tmp/wt2-" if "/seed2-out/" in d else "/tmp/wt-") + prop
     run_txt = open(os.path.join(d, "RUN.txt")).read() + "\n" + meta.get("demo_cmd", "")
     res = {"dir": d, "property": prop, "title": meta.get("title")}
     old_res = {}
